@@ -390,7 +390,7 @@ func runC11(c *report.Ctx) {
 			for _, pr := range predsOrNil(r.Block()) {
 				_ = pr
 			}
-			v := r.Results[0]
+			v := an.RetOperand(r, 0)
 			var vals []ssa.Value
 			if ph, isPhi := v.(*ssa.Phi); isPhi {
 				vals = ph.Edges
